@@ -669,7 +669,8 @@ func checkC18(c *Ctx, r *Report) {
 				if !ok || calleeKey(ln) != "builtin.len" {
 					continue
 				}
-				if derivesFrom(ln.Call.Args[0], func(v ssa.Value) bool { f, ok := v.(*ssa.FreeVar); return ok && f.Name() == "certHashes" }) {
+				// (the captured variable is upgrade's parameter, whatever it is called now: pinned by position)
+				if derivesFrom(ln.Call.Args[0], func(v ssa.Value) bool { return isParamVar(c, v, "certHashes") }) {
 					header = b
 				}
 			}
@@ -693,7 +694,7 @@ func checkC18(c *Ctx, r *Report) {
 				}
 				fromDialled := func(th func(ssa.Value) ssa.Value) func(ssa.Value) bool {
 					return func(v ssa.Value) bool {
-						isFV := func(y ssa.Value) bool { f, ok := y.(*ssa.FreeVar); return ok && f.Name() == "certHashes" }
+						isFV := func(y ssa.Value) bool { return isParamVar(c, y, "certHashes") } // (upgrade's parameter, captured)
 						return derivesFrom(v, isFV) || derivesFrom(th(v), isFV)
 					}
 				}
